@@ -110,6 +110,18 @@ def c04_stages(tier, seed):
     return [c04_stage("small3", "{1,2,3,4,5}", 3, "small"), c04_stage("full2", "{1,2,3,4,5}", 2, "full")]
 
 
+ALL_ARGS = '{"i","ni","fl","st","bo","id","e","ne","cu","li","lni","nli","lli","le","in","nin","lin","in2"}'
+
+
+def c05_stages(tier, seed):
+    if tier == "quick":
+        return [tlc_replay("MC_C05_d1", "MC_C05", "C05",
+                           dict(constants={"ArgNames": ALL_ARGS, "Depth": 1}, invariants=["Emit", "LitVarAgree"]))]
+    return [tlc_replay("MC_C05_d2", "MC_C05", "C05",
+                       dict(constants={"ArgNames": ALL_ARGS, "Depth": 2}, invariants=["Emit", "LitVarAgree"])),
+            c01_family("F5_c05", replay="C05", fam="F5", leafs="F5_Leafs", maxsel=3, maxnodes=3, dirs="DirsNone")]
+
+
 EXEC_ASSUME = [
     "the reference semantics in spec/Exec.tla + Coerce.tla is a faithful transcription of the GraphQL execution algorithm (checked by in-model theorems KeyPresence/WellFormedRoot and by hand against the specification text)",
     "exhaustive only within the stated bounds (families, selections per set, nodes, depth); schema S1 fixed",
@@ -132,6 +144,14 @@ PROPS = {
              "outcomes from the site alphabets (one vector per outcome table); non-trivial = table with >= 1 "
              "non-natural outcome (distinct tables counted by the harness)",
         assumptions=EXEC_ASSUME + ["a site is (type, field, source); outcomes per site from the alphabet in MC_C04.tla"]),
+    "C05": dict(
+        stages=c05_stages, level="model_checking",
+        rule="TLC enumerates every (argument of Q.g, route in {literal, variable, variable default}, value) triple over "
+             "18 input type shapes and the JSON-like / literal value spaces of MC_C05.tla (atoms incl. number classes, "
+             "lists, input objects with unknown/missing/defaulted fields, nested at depth 2 in the thorough tier); "
+             "non-trivial = every triple (distinct (document, inputs) pairs counted by the harness)",
+        assumptions=EXEC_ASSUME + ["numbers by equivalence class with one representative each",
+                                   "inputs whose status differs between editions are marked unspec and only required not to crash"]),
 }
 
 
@@ -192,5 +212,15 @@ MANIFEST_TEXT["C04"] = dict(
     note="Trusted: TLC, Exec.tla (null propagation, completion), harness resolvers that act out the outcome table. Bounded: "
          "5 documents, fault count, one schema.",
     technique="TLA+ fault-enumeration machine + WellFormed theorem checked by TLC, tables replayed into the real executor")
+
+MANIFEST_TEXT["C05"] = dict(
+    text="Model checking: TLC enumerates all (argument type, route, value) triples of the bounded value spaces, computes with "
+         "Coerce.tla (input coercion transcribed from the specification) whether the request must be refused (errors, no data, "
+         "no resolver invoked) or which argument map the resolver must receive, checks the theorem 'literal and variable routes "
+         "agree on every type-conformant value' on the whole bound, and every triple is replayed into Do/Execute/ExecutePlan; "
+         "the resolver's Args and Info.VariableValues and the resolver invocation count must equal the specification's.",
+    note="Trusted: TLC, Coerce.tla, harness value conversion (class representatives for numbers). Edition-dependent inputs "
+         "(numeric strings/booleans/fractions for Int, etc.) are not asserted.",
+    technique="TLA+ coercion semantics + TLC exhaustive (type, value, route) enumeration replayed into the real executor")
 
 NOT_APPLICABLE = {}
